@@ -147,6 +147,8 @@ def describe_len(fn, op, depth=0):
             return ("len", okey(o.fn, t[2][0]))
         if not o.path and c.endswith("::min") and len(t[2]) == 2:
             return ("min", [describe_len(o.fn, t[2][0], depth + 1), describe_len(o.fn, t[2][1], depth + 1)])
+        if not o.path and c.endswith("::max") and len(t[2]) == 2:
+            return ("max", [describe_len(o.fn, t[2][0], depth + 1), describe_len(o.fn, t[2][1], depth + 1)])
         if (c.endswith("Iterator>::next") or (t[1].get("decl") or "") == "std::iter::Iterator::next") and [e for e in o.path if not isinstance(e, str) and e[0] == "f"]:
             # item of a Range iterator
             for o2 in mir.trace_op(o.fn, t[2][0], transparent=("IntoIterator>::into_iter",)):
